@@ -3,6 +3,7 @@ MODULES = [
     'contracts.keys',
     'contracts.layout',
     'contracts.names',
+    'contracts.taskdata',
 ]
 EXTRA_CHECKS = {}
 EXTRA_REPLAY = {}
